@@ -7,32 +7,21 @@
   Known-finding classes (what mongomock does / what the rules say):
     arraypath      a path through an array raises KeyError unless every element has the field;
                    numeric components index arrays        / collect the field of sub-documents
-    undefvar       `$$name` not bound is missing          / error (except ROOT, CURRENT, REMOVE)
     arrayliteral   an array in expression position is returned unevaluated, also as the
                    single argument `[x]` of a unary operator / its elements are evaluated
     scalararg      a variadic operator given a bare operand raises / takes it as one operand
     boolarith      booleans count as 0/1 in arithmetic and as indexes / are not numbers
-    numtype        `$mod`, `$pow` of ints are floats; `$ceil/$floor/$trunc` of doubles are ints
-    adddate        `$add` with a date raises              / date plus milliseconds
-    missingcmp     a comparison with a missing operand is missing / missing sorts below null
     boolnum        `$eq $ne $in` and array comparison identify true/false with 1/0 (Python ==)
     docorder       documents equal up to key order compare equal (Python ==)
     letmissing     a `$let` variable bound to a missing value makes the whole `$let` missing
-    mapmissing     a missing `in` value makes the whole `$map` missing / null element
-    filtertruth    `$filter` keeps items by Python truthiness ("" and [] are dropped); a missing
-                   condition value makes the whole `$filter` missing / false
-    nullarg        null / missing operand of `$filter`, `$arrayElemAt`, `$in`, `$toLower`, `$toUpper`,
-                   `$toString`, `$strcasecmp`, date parts raises, is missing or "None" / null, ""
-    concatstr      `$concat` applies str() to non-strings   / error
-    strcasecmp     `$strcasecmp` compares case-sensitively
     andstrict      `$and` parses every operand: one that raises after the first false operand
                    makes the `$and` raise              / evaluation stops at the first false
-    condkeys       `$cond` document without `if`/`then`/`else` is missing / error
-    laxargs        arguments the rules reject are accepted: `$ifNull` with one operand, `$let` /
-                   `$cond` with extra fields, variable names that do not start with a lower-case
-                   letter
-    exprmissing    `find({$expr: e})` raises KeyError when `e` is missing on a document / false
-    exprtruth      `$expr` uses Python truthiness ("" and [] do not match) / toBool
+                   (kept: C20 relies on an unsupported operator in that position raising)
+    laxargs        variable names that do not start with a lower-case letter are accepted / error
+  Repaired in the library (no longer classes; their witnesses are run as ordinary cases):
+    exprtruth, exprmissing, strcasecmp, numtype, adddate, concatstr, nullarg, condkeys, undefvar,
+    filtertruth, mapmissing, missingcmp, and of laxargs the parts `$ifNull` with one operand, `$let` / `$cond`
+    with extra fields.
   Scope limits: specraises (the rules reject the expression: no value to compare),
     specunmodelled (no oracle), deepcmp (comparison of documents, nested arrays, ObjectIds, aware
     dates), dupkeys, tzform (the `{date:, timezone:}` argument form of the date operators),
@@ -100,27 +89,15 @@ def eqReasons (a b : Val) : List String :=
 def isBoolO : Option Val → Bool
   | some (.bool _) => true
   | _ => false
-def isIntO : Option Val → Bool
-  | some (.int _) => true
-  | _ => false
-def isDblO : Option Val → Bool
-  | some (.dbl _ _) => true
-  | _ => false
-def isDateO : Option Val → Bool
-  | some (.date _ _) => true
-  | _ => false
-def isStrO : Option Val → Bool
-  | some (.str _) => true
-  | _ => false
-
 def arithOps : List String :=
   ["$add", "$multiply", "$subtract", "$divide", "$mod", "$pow", "$abs", "$ceil", "$floor", "$trunc"]
 
-/-- the strict operators inside the fragment `eval_eq_spec` covers; the others
-    (`$cmp $toLower $toUpper $strcasecmp $toString $in`) are compared by the harness only -/
+/-- the strict operators inside the fragment `eval_eq_spec` covers; the others (`$cmp $in`) are
+    compared by the harness only -/
 def provedStrict : List String :=
   arithOps ++ ["$eq", "$ne", "$gt", "$gte", "$lt", "$lte", "$not", "$isArray", "$isNumber",
-    "$size", "$concatArrays", "$concat", "$arrayElemAt"] ++ datePartOps
+    "$size", "$concatArrays", "$concat", "$arrayElemAt", "$strcasecmp", "$toLower", "$toUpper",
+    "$toString"] ++ datePartOps
 
 def unproved (k : String) : List String :=
   if provedStrict.contains k then [] else ["unproved:" ++ k]
@@ -128,10 +105,7 @@ def unproved (k : String) : List String :=
 /-- reasons local to a strict operator, from its evaluated operands -/
 def strictReasons (k : String) (vs : List (Option Val)) : List String :=
   if arithOps.contains k then
-    (if vs.any isBoolO then ["boolarith"] else []) ++
-    (if (k = "$mod" || k = "$pow") && vs.all isIntO then ["numtype"] else []) ++
-    (if ["$ceil", "$floor", "$trunc"].contains k && vs.any isDblO then ["numtype"] else []) ++
-    (if k = "$add" && vs.any isDateO then ["adddate"] else [])
+    (if vs.any isBoolO then ["boolarith"] else [])
   else if ["$eq", "$ne", "$gt", "$gte", "$lt", "$lte"].contains k then
     match vs with
     | [some a, some b] =>
@@ -141,27 +115,15 @@ def strictReasons (k : String) (vs : List (Option Val)) : List String :=
         (if (a.isArr || b.isArr) && boolNumClash a b then ["boolnum"] else []) ++
         (if hasWideDoc a && hasWideDoc b then ["docorder"] else []) ++
         (if cmpFlat a && cmpFlat b then [] else ["deepcmp"])
-    | [_, _] => ["missingcmp"]
-    | _ => []
+    | _ => []                      -- a missing operand sorts below everything on both sides
   else if k = "$in" then
     match vs with
     | [some x, some (.arr xs)] => (xs.map (eqReasons x)).flatten.eraseDups
-    | [x, a] => if nullish a || x.isNone then ["nullarg"] else []
     | _ => []
   else if k = "$arrayElemAt" then
     (match vs with
-     | [a, i] => (if nullish a || nullish i then ["nullarg"] else []) ++
-                 (if isBoolO i then ["boolarith"] else [])
+     | [_, i] => (if isBoolO i then ["boolarith"] else [])
      | _ => [])
-  else if k = "$concat" then
-    (if vs.any (fun v => !nullish v && !isStrO v) then ["concatstr"] else [])
-  else if k = "$toLower" || k = "$toUpper" then
-    (if vs.any nullish then ["nullarg"] else [])
-  else if k = "$strcasecmp" then
-    ["strcasecmp"] ++ (if vs.any nullish then ["nullarg"] else [])
-  else if k = "$toString" then
-    (if vs.any (fun v => v == some .null) then ["nullarg"] else [])
-  else if datePartOps.contains k then (if vs.any nullish then ["nullarg"] else [])
   else []
 
 def okReasons {α} (r : R α) : List String :=
@@ -191,8 +153,7 @@ def strReasons (root : Val) (env : Env) (s : String) : List String :=
       | none =>
         if name = "ROOT" || name = "CURRENT" then
           (if pathThroughArray rest root then ["arraypath"] else [])
-        else if name = "REMOVE" then []
-        else ["undefvar"]
+        else []                 -- `$$REMOVE` is missing; any other name is rejected by the rules
     | [] => []
   | .field r => if pathThroughArray (splitDotsChars r []) root then ["arraypath"] else []
   | .lit => []
@@ -208,12 +169,6 @@ def andStrict : List (R (Option Val)) → Bool
 def unaryOps : List String :=
   ["$abs", "$ceil", "$floor", "$trunc", "$not", "$toLower", "$toUpper", "$isArray", "$isNumber",
    "$toString"] ++ datePartOps
-
-def pyFalsyButTrue : Option Val → Bool
-  | some (.str s) => s == ""
-  | some (.arr xs) => xs.isEmpty
-  | some (.doc fs) => fs.isEmpty
-  | _ => false
 
 mutual
   /-- reasons for expression `e` on `root` under `env`, children included -/
@@ -244,14 +199,8 @@ mutual
         (if unaryOps.contains k then ["arrayliteral"] else []) ++
         (match sList root env xs with
          | .ok vs => strictReasons k vs
-         | .error _ =>
-           -- an operand raises by the rules, but the code leaves at an earlier missing operand
-           if xs.any (fun x => match sEval root env x with | .ok none => true | _ => false) then
-             [if ["$eq", "$ne", "$gt", "$gte", "$lt", "$lte"].contains k then "missingcmp"
-              else "nullarg"]
-           else [])
+         | .error _ => [])
       else if ["$and", "$or", "$cond", "$ifNull"].contains k then
-        (if k = "$ifNull" && xs.length < 2 then ["laxargs"] else []) ++
         (if k = "$and" && andStrict (xs.map (sEval root env)) then ["andstrict"] else []) ++
         rList root env xs
       else ["unproved:" ++ k]
@@ -259,8 +208,7 @@ mutual
       if k = "$literal" then []
       else if k = "$let" then
         (match dget "vars" gs with
-         | some (.doc vs) =>
-           if gs.length ≠ 2 || !(vs.all (fun kv => userVarName kv.1)) then ["laxargs"] else []
+         | some (.doc vs) => if !(vs.all (fun kv => userVarName kv.1)) then ["laxargs"] else []
          | _ => []) ++
         rVarsAt root env gs ++
         (match sVarsAt root env gs with
@@ -278,28 +226,16 @@ mutual
         rAt root env "input" gs ++
         (match asVar gs, sAt root env "input" gs with
          | .ok name, .ok (some (.arr items)) =>
-           (items.map (fun item =>
-              rAt root ((name, some item) :: env) "in" gs ++
-              (match sAt root ((name, some item) :: env) "in" gs with
-               | .ok none => ["mapmissing"]
-               | _ => []))).flatten
+           (items.map (fun item => rAt root ((name, some item) :: env) "in" gs)).flatten
          | _, _ => [])
       else if k = "$filter" then
         (match asVar gs with | .ok _ => [] | .error _ => ["laxargs"]) ++
         rAt root env "input" gs ++
         (match asVar gs, sAt root env "input" gs with
          | .ok name, .ok (some (.arr items)) =>
-           (items.map (fun item =>
-              rAt root ((name, some item) :: env) "cond" gs ++
-              (match sAt root ((name, some item) :: env) "cond" gs with
-               | .ok none => ["filtertruth"]
-               | .ok v => if pyFalsyButTrue v then ["filtertruth"] else []
-               | _ => []))).flatten
-         | _, .ok none | _, .ok (some .null) => ["nullarg"]
+           (items.map (fun item => rAt root ((name, some item) :: env) "cond" gs)).flatten
          | _, _ => [])
       else if k = "$cond" then
-        (if dhas "if" gs && dhas "then" gs && dhas "else" gs then
-           (if gs.length ≠ 3 then ["laxargs"] else []) else ["condkeys"]) ++
         rAt root env "if" gs ++ rAt root env "then" gs ++ rAt root env "else" gs
       else if k = "$switch" then
         rBranchesAt root env gs ++ (if dhas "default" gs then rAt root env "default" gs else [])
@@ -358,22 +294,8 @@ def exprReasons (e d : Val) : List String :=
 
 def exprInD (e d : Val) : Bool := (exprReasons e d).isEmpty
 
-/-- the classes in which the code turns a value into a KeyError ("missing") -/
-def missingMakers : List String :=
-  ["missingcmp", "letmissing", "mapmissing", "arraypath", "nullarg", "filtertruth", "condkeys",
-   "undefvar"]
-
-/-- `find({$expr: e})`: beyond the reasons of the value, the matcher uses Python truthiness
-    (class `exprtruth`) and lets the KeyError of a missing value escape (class `exprmissing`:
-    the value is missing by the rules, or is made missing by one of the classes above) -/
-def filterReasons (e d : Val) : List String :=
-  let rs := exprReasons e d
-  rs ++
-  (match specEval d e with
-   | .ok none => ["exprmissing"]
-   | .ok v =>
-     (if pyFalsyButTrue v then ["exprtruth"] else []) ++
-     (if rs.any missingMakers.contains then ["exprmissing"] else [])
-   | .error _ => if rs.any missingMakers.contains then ["exprmissing"] else [])
+/-- `find({$expr: e})`: the matcher applies `toBool` to the value and reads a missing value as
+    false, so nothing is excluded beyond the reasons of the value -/
+def filterReasons (e d : Val) : List String := exprReasons e d
 
 end MongoModel.Spec
